@@ -16,10 +16,14 @@ RULE = ("a known offending token is planted after generated preceding text (prog
         "inter-token blanks, `_` separators, \\xHH); expected line = 1 + number of newlines before the token, column = 1 + "
         "characters since the last newline (5-line reference on the rewritten text); the first diagnostic line and every "
         "stack-trace line must carry exactly those numbers.  Also: every position stored in the syntax tree is the start of a "
-        "token, and an operator's stored position is the start of that operator's token.  Non-trivial = distinct (kind, "
+        "token, and an operator's stored position is the start of that operator's token.  Two fixed families exercise the known "
+        "findings K2 (escape / line break inside the literal before a slot) and K4 (literal directly inside 1-3 pairs of "
+        "parentheses, with and without a line break after the `(`): the true position of the name is expected; a report at "
+        "exactly the position the known mechanism predicts is listed as KNOWN-FINDING, any other as a violation.  Non-trivial = distinct (kind, "
         "template, layout features before the token: tab / CR / comment / multi-byte / multi-line literal / line>1)")
 ASSUMPTIONS = [
-    "nothing is planted inside interpolation slots whose literal has an escape or a line break before the slot (known finding K2)",
+    "outside the two known-finding families nothing is planted inside interpolation slots whose literal has an escape or a "
+    "line break before the slot (K2) or is directly inside parentheses (K4)",
     "the raising statement of a call chain is not a `return` expression (scheduled repair D7 changes that message's shape)",
     "a terminator written as a newline reports (next line, column 0); no terminator is planted as the offending token",
 ]
@@ -109,6 +113,27 @@ PRELUDES = [
 ]
 FOLLOW = ["", "print(\"never\")\n", "# trailing é\n", "zz_q := [\n1,\n2]\n"]
 FOLLOW_ANY = FOLLOW + ["&&&\n", "\"unterminated é\n", ") ] }\n"]      # after a lexical / syntax error anything may follow
+
+
+# Known findings K2 / K4: a diagnostic raised inside an interpolation slot is positioned at
+#   (line of the string node, its column + index of the slot in the decoded text + 4),
+# and the string node of a literal directly inside parentheses carries the position of the outermost `(`.
+# The true position of the name is still what is expected here; a case that reports exactly the position predicted by the
+# known mechanism is handed to ctx.violation with the finding's flag (so it is listed as KNOWN-FINDING), any other wrong
+# position is an ordinary violation.   «9» marks the anchor (literal start / outermost parenthesis).
+def known_families():
+    out = []
+    for depth in (1, 2, 3):
+        for brk in ("", "\n", "\n\t "):
+            for pre in ("", "é ", "ab"):
+                tail = "xk_q := «9»" + "(" * depth + brk + "$\"" + pre + "${«0»zz_q}\"" + ")" * depth + "\n"
+                out.append(("K4", f"paren{depth}" + ("+break" if brk else ""), tail, len(pre)))
+    for pre, n in (("ab\\n", 3), ("\\x41", 1), ("\\\\", 1), ("\\$", 1), ("a\nb", 3), ("é\\\"", 2), ("€\n\n", 3)):
+        out.append(("K2", "escape" if "\\" in pre else "line-break", "print(«9»$\"" + pre + "${«0»zz_q}\")\n", n))
+    return out
+
+
+FLAG = {"K2": "inside_slot_after_escape", "K4": "slot_in_parenthesised_literal"}
 
 
 def strip_markers(text):
@@ -222,6 +247,12 @@ def build_cases(ctx, rng, n):
         lead = rng.choice(["", "", "\t", "  ", " \t "])
         text, marks = strip_markers(pre + lead + tail + rng.choice(FOLLOW_ANY if kind in ("lex", "parse") else FOLLOW))
         bases.append({"kind": kind, "tag": tag, "src": text, "marks": marks, "runs": runs})
+    for fam, tag, tail, slot_start in known_families():
+        pre = rng.choice(PRELUDES) if rng.random() < 0.7 else ""
+        if pre and not pre.endswith(("\n", " ", "\t")):
+            pre += "\n"
+        text, marks = strip_markers(pre + rng.choice(["", "\t", "  "]) + tail + rng.choice(FOLLOW))
+        bases.append({"kind": "slot-" + fam, "tag": tag, "src": text, "marks": marks, "runs": True, "family": (fam, slot_start)})
     return bases
 
 
@@ -278,13 +309,18 @@ def process(ctx, rng, model_ok, bases, n_layouts, state, thorough):
         for s2, starts, tail_start, how in variants:
             exp = []
             offs = []
+            known_wrong = None
             for k in sorted(anchors):
                 a = anchors[k]
                 o = starts[a[1]] + a[2] if a[0] == "tok" else tail_start + a[1]
+                if k == 9:
+                    al, ac = L.pos_of(s2, o)
+                    known_wrong = (al, ac + b["family"][1] + 4)
+                    continue
                 offs.append(o)
                 exp.append(L.pos_of(s2, o))
             cases.append({"kind": b["kind"], "tag": b["tag"], "src": s2, "expect": exp, "runs": b["runs"], "how": how,
-                          "before": s2[:offs[0]]})
+                          "before": s2[:offs[0]], "family": b.get("family", (None,))[0], "known_wrong": known_wrong})
     srcs = [c["src"] for c in cases]
     impl, dis = tie.run(ctx, srcs, "planted", model_ok, project=tie.proj_out_pos)
     failures = []
@@ -312,19 +348,28 @@ def process(ctx, rng, model_ok, bases, n_layouts, state, thorough):
     failures.sort(key=lambda f: len(f[0]["src"]))
     reported = state["reported"]
     for c, r, why in failures:
-        key = (c["kind"], c["tag"])
-        if key in reported or len(reported) >= 8:
+        fam = c.get("family")
+        key = (c["kind"], c["tag"]) if not fam else ("known", fam)
+        if key in reported or len([k for k in reported if k[0] != "known"]) >= 8:
             continue
         cr = core.run_cli(c["src"])
         ctx.cov["cli_reconfirmed"] += 1
         w2 = judge(c, cr)
         if not w2:
             continue
-        reported[key] = 1
         exp = " ".join(f"{l}:{col}" for l, col in c["expect"])
+        details = {"cli": cr, "expected_positions": c["expect"], "layout": c["how"], "failing_in_chunk": len(failures)}
+        if fam:
+            first, _ = L.diag_positions(cr["stderr"])
+            if first == c["known_wrong"]:
+                # exactly the position the known mechanism predicts: listed as a known finding, not as a violation
+                details[FLAG[fam]] = True
+                details["position_predicted_by_the_known_mechanism"] = c["known_wrong"]
+            else:
+                key = (c["kind"], c["tag"])
+        reported[key] = 1
         ctx.violation(f"C18 ({c['kind']}): {w2}",
-                      c["src"] + ("" if c["src"].endswith("\n") else "\n") + f"# C18 expect positions {exp}\n",
-                      {"cli": cr, "expected_positions": c["expect"], "layout": c["how"], "failing_in_chunk": len(failures)})
+                      c["src"] + ("" if c["src"].endswith("\n") else "\n") + f"# C18 expect positions {exp}\n", details)
     bad_srcs = {c["src"] for c, _, _ in failures}
     tie.report_disagreements(ctx, [d for d in dis if d[0] not in bad_srcs], "planted")
     # ---- positions stored in the tree (unobservable through diagnostics for nodes that never fail)
@@ -349,16 +394,29 @@ def process(ctx, rng, model_ok, bases, n_layouts, state, thorough):
 
 
 EXPECT = re.compile(r"\n# C18 expect positions ((?:\d+:\d+ ?)+)\n\Z")
+SLOT_UNDEF = re.compile(r"\A[^\n:]*:(\d+):(\d+):(?: in '[^']*':)? \d+:\d+: '(\w+)' is not defined")
 
 
 def oracle_one(ctx, src, r):
+    """usable on any script: judges (a) a script carrying a trailing `# C18 expect positions …` comment (replays of this
+    check's own reports) and (b) an undefined name inside an interpolation slot, when the name occurs in exactly one slot:
+    the diagnostic must carry the position of the name"""
     m = EXPECT.search(src)
-    if not m:
+    if m:
+        exp = [tuple(int(x) for x in p.split(":")) for p in m.group(1).split()]
+        c = r if r is not None and r.get("stderr") is not None else core.run_cli(src)
+        why = judge({"expect": exp, "runs": True}, c)
+        if why:
+            return False, why + "\n" + c["stderr"]
         return True, ""
-    body = src          # the expectation is a trailing comment: it moves nothing
-    exp = [tuple(int(x) for x in p.split(":")) for p in m.group(1).split()]
-    c = core.run_cli(body)
-    why = judge({"expect": exp, "runs": True}, c)
-    if why:
-        return False, why + "\n" + c["stderr"]
+    m = SLOT_UNDEF.match((r or {}).get("stderr", ""))
+    if m:
+        name = m.group(3)
+        hits = [x.start() for x in re.finditer(r"\$\{\s*" + re.escape(name) + r"\b", src)]
+        if len(hits) == 1 and len(re.findall(r"\b" + re.escape(name) + r"\b", src)) == 1:
+            o = src.index(name, hits[0])
+            want = L.pos_of(src, o)
+            got = (int(m.group(1)), int(m.group(2)))
+            if got != want:
+                return False, f"diagnostic at {got[0]}:{got[1]}, the undefined name '{name}' (inside an interpolation slot) is at {want[0]}:{want[1]}"
     return True, ""
